@@ -12,19 +12,32 @@ use std::sync::{Arc, Condvar, Mutex};
 use std::task::{Context, Poll, Wake, Waker};
 
 const RULE: &str = "one case = one real multi-threaded execution of a writer thread (1 or 2 polls of poll_obtain_write_permission, counting waker) against an acknowledge(n) and/or disallow_write() performed by other threads on a standalone MuxStream (also with a do_shutdown() by a third, application thread before or after the close), \
-with initial credit 0/1/2; the observer hook blocks every thread at every hook event until a turn-taking scheduler releases it, so an execution is a chosen total order of hook events; all orders are enumerated depth-first by replay (plus random orders). \
+with initial credit 0/1/2; the observer hook blocks every thread at every hook event - and the writer's (counting) waker blocks the thread that invokes it, a wake-up being the moment another worker may poll the task - until a turn-taking scheduler releases it, so an execution is a chosen total order of hook and wake events; all orders are enumerated depth-first by replay (plus random orders). \
 Oracle W1-W4: credit conserved (final = initial + acknowledged - taken), a writer left Pending has either been woken since its last poll began or credit is 0 and the stream is open, polls that begin after the close returned fail, a frame only with a unit of credit. \
 Plus a free-running stress (no scheduler): a writer thread taking credit in a tight loop against a thread granting it in a tight loop, judged by exact conservation at the end (reaches interleavings between individual atomic operations). Non-trivial = another thread's step landed inside a writer poll, or a stress round in which credit was taken while grants were in progress; distinct = distinct hook-event orders";
 
 const SHUTDOWN: u32 = u32::MAX;
 
 struct CountWaker(AtomicU64);
+impl CountWaker {
+    /// The wake-up itself is a scheduling point of the thread that performs it: in a real runtime `wake()` hands the task
+    /// to another worker, which may poll it at once, while the waking thread has not yet executed its next statement.
+    fn fired(&self) {
+        self.0.fetch_add(1, Ordering::SeqCst);
+        if let Some(t) = TID.with(|c| c.get()) {
+            let s = SCHED.lock().unwrap().clone();
+            if let Some(s) = s {
+                s.at(t, Step::WakerFired);
+            }
+        }
+    }
+}
 impl Wake for CountWaker {
     fn wake(self: Arc<Self>) {
-        self.0.fetch_add(1, Ordering::SeqCst);
+        self.fired();
     }
     fn wake_by_ref(self: &Arc<Self>) {
-        self.0.fetch_add(1, Ordering::SeqCst);
+        self.fired();
     }
 }
 
@@ -34,6 +47,8 @@ enum Step {
     Hook(Kind),
     /// the application-side `do_shutdown()` of a third thread has returned
     ShutdownDone,
+    /// the writer's waker is being invoked by this thread (it continues with the statement after its `wake()` when released)
+    WakerFired,
 }
 
 struct State {
@@ -196,7 +211,7 @@ fn judge(st: &mut Stats, cfg: &Config, r: &Result1, engine: &str) {
     let closed_by_task = cfg.others.iter().any(Option::is_none);
     let app_shutdown = cfg.others.iter().any(|o| *o == Some(SHUTDOWN));
     let ready = r.polls.iter().filter(|(p, _)| p == "Ready(Some)").count() as u32;
-    let order: Vec<String> = r.trace.iter().map(|(t, s)| format!("T{t}:{}", match s { Step::Start => "Start".to_string(), Step::ShutdownDone => "ShutdownDone".to_string(), Step::Hook(k) => format!("{k:?}") })).collect();
+    let order: Vec<String> = r.trace.iter().map(|(t, s)| format!("T{t}:{}", match s { Step::Start => "Start".to_string(), Step::ShutdownDone => "ShutdownDone".to_string(), Step::WakerFired => "WakerFired".to_string(), Step::Hook(k) => format!("{k:?}") })).collect();
     let replay = || json!({"kind": "c12", "config": format!("{cfg:?}"), "engine": engine, "hook_order": order, "polls": format!("{:?}", r.polls), "final_credit": r.final_credit, "closed": r.closed, "wakes": r.wakes_total});
     // W1 conservation
     if r.final_credit != cfg.c0 + acked - ready {
